@@ -89,7 +89,9 @@ POOL = ["ret", "nop", "push rax", "clc", "nop2", "xor eax, eax", "push r8", "add
         # literals beyond 64 bits (accepted and clamped by the library: whatever they do, they must not influence later lines or calls)
         "add rcx, 0x1ffffffffffffffff", "push 99999999999999999999999", "mov rax, [rbx+0x10000000000000000]",
         # displacements wider than 32 bits (accepted and truncated by the library: whatever they do, no write may leave the buffer)
-        "mov rax, [rbx+0x123456789]", "add dword [rcx+rdx*2+0x1000000ff], 1", "lea rax, [rbx+0xffffffff80]", "mov rax, [rbx+4294967424]"]
+        "mov rax, [rbx+0x123456789]", "add dword [rcx+rdx*2+0x1000000ff], 1", "lea rax, [rbx+0xffffffff80]", "mov rax, [rbx+4294967424]",
+        # immediates equal to the value strtoul reports on overflow
+        "add rax, -1", "mov rcx, 0xffffffffffffffff", "push -1", "and rdx, 0xffffffffffffffff", "mov rax, 18446744073709551615"]
 BADLINES = ["bogus rax", "mov [rax], [rbx]", "add rax, rxx", "lea rax, [rsp+rsp]"]
 OPTSENS = ["mov rax, 0x5", "mov rax, 0x0000000000000005", "lea rcx, [rax+rsp]", "lea rcx, [2*rax]", "mov rdx, 1234", "lea rcx, [4*rdx+0x10]",
            "add qword [rax+rsp], 5", "add qword [2*rax], 5", "mov dword [2*rcx], 100", "imul rax, [rbx+rsp], 10", "add qword [rax+rsp], 0x5", "cmp byte [8*rdx], 7",
@@ -145,7 +147,7 @@ def hx(text):
     return text.encode("latin-1").hex() or "-"
 
 
-SEPS = ["\n", "\r\n", "\r", "\n\n", "\n \t\n", " ; note\n", "\n; note\n", "\r\r", "\n\r"]
+SEPS = ["\n", "\r\n", "\r", "\n\n", "\n \t\n", " ; note\n", "\n; note\n", "\r\r", "\n\r", " ; note\r", "\r; note\r", " % m\r", " ;\r", "\r\n; note\r\n"]
 
 
 class Script:
@@ -258,6 +260,10 @@ class Script:
     def binfile(self, i, path, expectfail=False):
         self.lines.append("B %d %s" % (i, hx(path)))
         self.meta.append({"expectfail": True} if expectfail else {})
+
+    def fdlimit(self, n):
+        self.lines.append("L %d" % n)
+        self.meta.append({})
 
     def arm(self, call, nth):
         self.lines.append("Z %s %d" % (call, nth))
@@ -627,8 +633,8 @@ def run(prop, tier, replay=None):
         nrand = nq if tier == "quick" else nt
         for k in range(nrand):
             scripts.append(random_history("%s-r%d" % (prop, k), L, rnd, flavour))
-        if prop in ("C08", "C06"):
-            scripts += [x for x in c08_boundary(L, rnd, tier) if prop == "C08" or x.sid.startswith(("C08-s", "C08-o"))]
+        if prop in ("C08", "C06", "C15"):
+            scripts += [x for x in c08_boundary(L, rnd, tier) if prop == "C08" or x.sid.startswith(("C08-s", "C08-o", "C08-f"))]
         if prop == "C13":
             scripts += c13_boundary(L, rnd, tier)
         if prop == "C14":
@@ -823,6 +829,25 @@ def c08_boundary(L, rnd, tier):
                         # jump over the body: the code starts with the body, so append "mov rax, v ; ret" and execute only when the body is nops
                         pass
                     out.append(sc)
+    small = [L.bylen[3][0], L.bylen[1][0], L.bylen[7][0] if L.bylen.get(7) else L.bylen[3][0]]
+    # a call that fails AFTER it made the buffer grow, then further calls on the instance (three modes; the bad line right behind the
+    # first, second growth point)
+    badk = L.bad[0]
+    for mult in (1, 2):
+        for mode in ("plain", "fit", "count"):
+            sc = Script("C08-f%d" % n); n += 1
+            sc.create(1, "int", 0)
+            sc.mirror(1)
+            sc.asm(1, small, [L.text[x] for x in small])
+            if mode == "fit":
+                sc.chunk(1, 16)
+            body = build(mult * 6000 + 900) + [badk] + small
+            sc.asm(1, body, [L.text[x] for x in body], count=(16 if mode == "count" else None))
+            sc.asm(1, small, [L.text[x] for x in small], count=(16 if mode == "count" else None))
+            body2 = build(mult * 6000 + 2000)
+            sc.asm(1, body2, [L.text[x] for x in body2])
+            sc.asm(1, small[:1], [L.text[x] for x in small[:1]])
+            out.append(sc)
     # many growth steps: programs ending around the 11th, 22nd (thorough: also 12th, 40th) multiple of the quantum
     for mult in ((11, 12, 22, 40) if tier == "thorough" else (11, 22)):      # (the caller-buffer mirror holds 257 952 bytes)
         for d in (-1, 21):
@@ -840,7 +865,6 @@ def c08_boundary(L, rnd, tier):
                 sc.asm(1, body[half:], [L.text[x] for x in body[half:]], count=(16 if mode == "count" else None))
                 out.append(sc)
     # a call that STARTS inside the last 20 bytes of the mapped buffer (the previous call ended there, or asm_set_offset put it there)
-    small = [L.bylen[3][0], L.bylen[1][0], L.bylen[7][0] if L.bylen.get(7) else L.bylen[3][0]]
     for mult in mults:
         for P in range(mult * 6000 - 3, mult * 6000 + 24, 1 if tier == "thorough" else 2):
             for mode in ("plain", "fit", "count"):
@@ -1160,6 +1184,32 @@ def c19_scripts(L, rnd, tier):
             sc.asm_file(1, [], bad, count=cnt, expectfail=True)
             sc.asm(1, [k], [L.text[k]])
             out.append(sc)
+    # a missing file whose path is several hundred characters long (the error path must cope with it)
+    longbad = os.path.join(d, "a" * 200, "b" * 200, "c" * 200 + ".asm")
+    longdir = os.path.join(d, "L" * 180, "M" * 180)
+    os.makedirs(longdir, exist_ok=True)
+    longok = os.path.join(longdir, "N" * 200 + ".asm")
+    open(longok, "w").write(L.text[L.bylen[3][0]] + "\n")
+    for cnt in (None, 8):
+        sc = Script("C19-long%d" % n); n += 1
+        sc.create(1, "ext", 200)
+        k = L.bylen[3][0]
+        sc.asm(1, [k], [L.text[k]])
+        sc.asm_file(1, [], longbad, count=cnt, expectfail=True)
+        sc.asm_file(1, [k], longok, count=cnt, twin=False)
+        sc.asm(1, [k], [L.text[k]])
+        out.append(sc)
+    # failing file calls must not use up descriptors: with a limit of 40, sixty failing calls of each kind, then a good file
+    for badpath in (d, os.path.join(d, "does-not-exist.asm"), "/proc", longbad):
+        sc = Script("C19-fd%d" % n); n += 1
+        sc.create(1, "ext", 200)
+        sc.fdlimit(40)
+        for q in range(60):
+            sc.asm_file(1, [], badpath, count=(8 if q % 2 else None), expectfail=True)
+        k = L.bylen[3][0]
+        sc.asm_file(1, [k], longok, twin=False)
+        sc.binfile(1, os.path.join(d, "fd%d.bin" % n))
+        out.append(sc)
     # binary output at the listed offsets (library-managed buffer, grown where needed) and to an unwritable path
     one = next(x for x in L.bylen[1] if L.text[x] == "nop")
     big = L.bylen[max(k for k in L.bylen if k <= 11)][0]
@@ -1210,6 +1260,17 @@ def c17_scenarios(L, rnd):
         sc.asm(1, small, [L.text[k] for k in small])
         sc.asm_file(1, small, smallfile, count=cnt, twin=False)
         sc.asm_file(1, long_keys[: 6100 // bl], bigfile, count=cnt, twin=False)
+        sc.asm(1, small, [L.text[k] for k in small])
+        sc.destroy(1)
+    # a path several hundred characters long (the error paths format it)
+    longdir = os.path.join(d, "L" * 180, "M" * 180)
+    os.makedirs(longdir, exist_ok=True)
+    longok = os.path.join(longdir, "N" * 200 + ".asm")
+    open(longok, "w").write("\n".join(L.text[k] for k in small) + "\n")
+    for cnt in (None, 8):
+        sc = S("file-longpath-" + ("count" if cnt else "plain")); sc.create(1, "ext", 300)
+        sc.asm(1, small, [L.text[k] for k in small])
+        sc.asm_file(1, small, longok, count=cnt, twin=False)
         sc.asm(1, small, [L.text[k] for k in small])
         sc.destroy(1)
     # degenerate file sizes: an empty file, a single byte, a single line without line end
